@@ -11,7 +11,8 @@ mechanical:
     (skipped: items under `#[cfg(test)]` / `#[test]`, `mod tests { .. }`, files that are declared `#[cfg(test)] mod x;`)
   * and lists every SITE:  binary `+ - * / % << >>` and their compound assignments, unary `-` on a non-literal,
     `as <integer type>` casts, indexing `x[i]` / range slicing `x[a..b]`, `.unwrap()`, `.expect(..)`, the panicking
-    std methods (METHODS below: `copy_from_slice`, `split_at`, `chunks_exact`, `remove`, `swap_remove`, …), and the
+    std methods (METHODS below: `copy_from_slice`, `split_at`, `chunks_exact`, `remove`, `swap_remove`, …; allocation
+    sized by an argument: `with_capacity`, `reserve`, `resize`, `repeat`, `vec![x; n]`), and the
     macros `unreachable! panic! assert! assert_eq! assert_ne! todo! unimplemented!` (not `debug_assert*`).
     A site is (file, function, kind, normalised expression text, occurrence index) — NO line numbers, so unrelated
     edits do not disturb it.  The lexer does not type expressions: operands that are floats, strings or trait bounds
@@ -56,7 +57,11 @@ MACROS = {"unreachable", "panic", "assert", "assert_eq", "assert_ne", "todo", "u
 METHODS = {"unwrap", "expect", "unwrap_unchecked", "copy_from_slice", "clone_from_slice", "copy_within", "split_at",
            "split_at_mut", "chunks_exact", "chunks", "windows", "step_by", "remove", "swap_remove", "split_off", "drain",
            "swap", "abs", "pow", "div_euclid", "rem_euclid", "sum", "product", "unwrap_err", "expect_err",
-           "rotate_left", "rotate_right", "from_utf8_unchecked"}
+           "rotate_left", "rotate_right", "from_utf8_unchecked",
+           # allocation sized by an argument: "capacity overflow" panic / allocation failure abort
+           "reserve", "reserve_exact", "resize", "resize_with", "repeat", "with_capacity"}
+# … also as path calls (`Vec::with_capacity(n)`)
+PATH_CALLS = {"with_capacity"}
 
 
 # ---------------------------------------------------------------------------------------------------------- files
@@ -568,6 +573,25 @@ def scan_file(rel, src):
             emit("call:" + t.text, lo, end + 1, i)
             i += 1
             continue
+        if t.kind == "ident" and t.text in PATH_CALLS and prev is not None and prev.text == "::" and nxt is not None and nxt.text == "(":
+            end = match_close(toks, i + 1, rel)
+            lo = left_operand(toks, i, 0)
+            emit("call:" + t.text, lo, end + 1, i)
+            i += 1
+            continue
+        # ---- `vec![x; n]`
+        if t.kind == "ident" and t.text == "vec" and nxt is not None and nxt.text == "!" and i + 2 < n and toks[i + 2].text == "[":
+            end = match_close(toks, i + 2, rel)
+            depth = 0
+            for u in toks[i + 3:end]:
+                if u.kind == "punct":
+                    if u.text in ("(", "[", "{"):
+                        depth += 1
+                    elif u.text in (")", "]", "}"):
+                        depth -= 1
+                    elif u.text == ";" and depth == 0:
+                        emit("call:vec-repeat", i, end + 1, i)
+                        break
         # ---- casts
         if t.kind == "ident" and t.text == "as" and nxt is not None and nxt.kind == "ident" and nxt.text in INT_TYPES and is_expr_end(prev):
             lo = left_operand(toks, i - 1, 0)
